@@ -171,7 +171,7 @@ type aView struct {
 }
 
 var propOfProfile = map[string]string{
-	"c01": "C01", "nofault": "C01", "limits": "C01", "c05": "C05", "c06": "C06", "c07": "C07", "c07big": "C07", "c11": "C11", "c11big": "C11", "c12": "C12",
+	"c01": "C01", "c01two": "C01", "nofault": "C01", "limits": "C01", "c05": "C05", "c06": "C06", "c07": "C07", "c07big": "C07", "c11": "C11", "c11big": "C11", "c12": "C12",
 	"c17a": "C17", "c18": "C18", "c19": "C19",
 }
 
@@ -472,6 +472,84 @@ func (r *aRun) oracleC01(v *aView) {
 		}
 	}
 	out.probe("duplicates_delivered", dups)
+	if r.srv2 != nil && !r.srv2.healthyOnly {
+		r.oracleC01SecondOutput(v)
+	}
+}
+
+// the same obligations for the second output: its own upstream, its own queue root, its own reference
+func (r *aRun) oracleC01SecondOutput(v *aView) {
+	out := r.out
+	ref2, err := newAReference(r.s.configYAML(""))
+	if err != nil {
+		out.Harness = "reference for output 2: " + err.Error()
+		return
+	}
+	ref2.outIdx = 1
+	acked, onDisk := map[string]bool{}, map[string]bool{}
+	deliv := map[string][]*forwardprotocol.EventEntry{}
+	for _, m := range r.srv2.msgs {
+		for i := range m.Entries {
+			st := eventStamp(&m.Entries[i])
+			deliv[st] = append(deliv[st], &m.Entries[i])
+			if m.AckSent {
+				acked[st] = true
+			}
+		}
+	}
+	if len(r.stops) > 0 {
+		for p, data := range r.stops[len(r.stops)-1].Files2 {
+			if !strings.HasSuffix(p, ".ff") {
+				continue
+			}
+			m, derr := decodeChunkFile(data)
+			if derr != nil {
+				r.note("C01", "altered", "queue-file-undecodable-output2", "queue file %s of the second output does not decode: %v", p, derr)
+				continue
+			}
+			for i := range m.Entries {
+				onDisk[eventStamp(&m.Entries[i])] = true
+			}
+		}
+	}
+	saved := v.ref
+	v.ref = ref2
+	defer func() { v.ref = saved }()
+	missing, first := 0, ""
+	for _, sr := range v.full {
+		if sr.rec.Raw != "" {
+			continue
+		}
+		st := stampOf(sr)
+		out.Obligations++
+		out.probe("second_output_records_checked", 1)
+		if sr.rec.Drop {
+			if len(deliv[st]) > 0 {
+				r.note("C01", "filtered-record-delivered", "filtered-record-delivered-output2", "record %s carries the drop marker but was delivered to the second output", st)
+			}
+			continue
+		}
+		if !acked[st] && !onDisk[st] && v.dropped == 0 {
+			r.note("C01", "lost", "lost-output2", "record %s (client %d) was read by the agent but is neither acknowledged by the second upstream nor in the second output's on-disk queue after the final stop (transmitted %d times)", st, sr.client, len(deliv[st]))
+		}
+		if !acked[st] {
+			missing++
+			if first == "" {
+				first = st
+			}
+		}
+		for _, e := range deliv[st] {
+			if diff := r.checkEvent(v, sr, e); diff != "" {
+				r.note("C01", "altered", "altered-output2", "record %s arrived at the second upstream altered: %s", st, diff)
+			}
+		}
+	}
+	if r.finalDeadlineHit && missing > 0 && v.dropped == 0 {
+		r.note("C01", "liveness", "liveness-output2", "%d records (first %s) were not acknowledged by the second upstream within the bound after it became healthy at %v", missing, first, r.healthyFrom)
+	}
+	for _, de := range r.srv2.decodeErr {
+		r.note("C01", "altered", "output2-undecodable", "the second upstream could not decode a message: %s", de)
+	}
 }
 
 // every delivered event must be attributable to a sent record (or be the forwarded unfinished last line of a connection)
